@@ -136,4 +136,25 @@ TARGETS = {
                           "crash": {}}),
         ],
     ),
+    "ConcurrencyGen": dict(
+        out="Gen/ConcurrencyGen.v", tie="C08/ConcTie.v",
+        header="From HS Require Import Base.Prelude Base.PyLib.",
+        classes=[
+            dict(file="happysimulator/components/server/concurrency.py", cls="FixedConcurrency", fields={"_max_concurrent": "Z", "_active": "Z"},
+                 methods={"acquire": dict(params={"weight": "Z"}), "release": dict(params={"weight": "Z"}),
+                          "has_capacity": dict(params={"weight": "Z"}, pure=True), "available": dict(pure=True),
+                          "active": dict(pure=True), "limit": dict(pure=True)}),
+            dict(file="happysimulator/components/server/concurrency.py", cls="DynamicConcurrency",
+                 fields={"_current_limit": "Z", "_min_limit": "Z", "_max_limit": "opt Z", "_active": "Z"},
+                 methods={"set_limit": dict(params={"new_limit": "Z"}), "scale_up": dict(params={"amount": "Z"}),
+                          "scale_down": dict(params={"amount": "Z"}),
+                          "acquire": dict(params={"weight": "Z"}), "release": dict(params={"weight": "Z"}),
+                          "has_capacity": dict(params={"weight": "Z"}, pure=True), "available": dict(pure=True),
+                          "active": dict(pure=True), "limit": dict(pure=True)}),
+            dict(file="happysimulator/components/server/concurrency.py", cls="WeightedConcurrency", fields={"_total_capacity": "Z", "_used_capacity": "Z"},
+                 methods={"acquire": dict(params={"weight": "Z"}), "release": dict(params={"weight": "Z"}),
+                          "has_capacity": dict(params={"weight": "Z"}, pure=True), "available": dict(pure=True),
+                          "active": dict(pure=True), "limit": dict(pure=True)}),
+        ],
+    ),
 }
